@@ -159,6 +159,14 @@ func (s *Solver) emitRec(sb *strings.Builder, t *Term) {
 			fmt.Fprintf(sb, "(declare-const %s %s)\n", quoteName(x.Name), x.Sort.String())
 			continue
 		}
+		if x.Op == OBV2IntS {
+			w := x.Args[0].Sort.W
+			n := s.name(x.Args[0])
+			half := new(big.Int).Lsh(big.NewInt(1), uint(w-1))
+			full := new(big.Int).Lsh(big.NewInt(1), uint(w))
+			fmt.Fprintf(sb, "(define-fun t%d () Int (ite (< (bv2nat %s) %s) (bv2nat %s) (- (bv2nat %s) %s)))\n", x.ID, n, half.String(), n, n, full.String())
+			continue
+		}
 		fmt.Fprintf(sb, "(define-fun t%d () %s (%s", x.ID, x.Sort.String(), headStr(x))
 		for _, a := range x.Args {
 			sb.WriteString(" ")
